@@ -56,14 +56,16 @@ fn code_of(k: &ErrorKind) -> i64 {
         ErrorKind::Other => 11,
     }
 }
-/// which call produced this error: "e<i>" -> i; the error built by with_timeout -> -1
+/// which call produced this error: "e<i>" -> i; any other message was not written by the
+/// scripted closure, i.e. the error was built by the helper itself (with_timeout) -> -1.
+/// Errors are classified by KIND (code_of); the wording of a helper's message is not observed.
 fn origin_of(e: &CloudIOError) -> i64 {
     if let Some(r) = e.message.strip_prefix('e') {
         if let Ok(i) = r.parse::<i64>() {
             return i;
         }
     }
-    if e.message.starts_with("Operation exceeded timeout") { -1 } else { -2 }
+    -1
 }
 fn sym_at(script: &[i64], i: usize) -> i64 {
     if script.is_empty() {
